@@ -25,6 +25,12 @@ def generate(seed, tier, k):
     if mode != 0:
         gen.add_faults(doc, seed, p_fault=1.0)
     doc["c07"] = {"clock_twin": r.random() < 0.15, "x0": r.random() < 0.15}
+    # newtonrhapson called directly with its default fun / jac (x0, umat) instead of items
+    simple = len(doc["items"]) == 1 and doc["items"][0]["type"] == "SolidBody" and doc["items"][0]["umat"]["name"] not in world.HISTORY_MATERIALS + ("ThreeField", "NearlyIncompressible", "LinearElastic") and "multiplier" not in doc["items"][0] and doc["field"]["kind"] != "Mixed3"
+    if simple and len(doc["steps"]) == 1 and r.random() < 0.25:
+        doc["c07"]["direct"] = True
+        doc["c07"]["x0"] = False
+        doc["c07"]["clock_twin"] = False
     return doc
 
 
@@ -131,7 +137,7 @@ class C07Monitor(jobsim.Monitor):
         fk = world.fork(eng.w, durable=c["durable_start"], step_index=c["step"], substep=c["substep"])
         fk.set_values([f.values for f in res.x.fields])
         step_items = [fk.items[k] for k in eng.doc["steps"][c["step"]].get("items", range(len(fk.items)))]
-        r = _newton_mod.fun_items(step_items, fk.field)
+        r = world.ref_fun_items(fk, step_items)
         # absolute floor: rounding noise of the assembled internal forces
         cands = [float(np.abs(i["b"]).max()) for i in its if i["b"].size] + [float(abs(its[-1]["K"]).max()) * (float(np.abs(x).max()) + 1e-4)]
         fscale = max([v for v in cands if np.isfinite(v)] + [0.0])
@@ -194,10 +200,46 @@ def simulate(doc, log, clock=None, collect=None):
     kw = {}
     if doc.get("c07", {}).get("x0"):
         kw["x0"] = w.field
+    if doc.get("c07", {}).get("direct"):
+        return simulate_direct(doc, log, w, eng)
     with eng:
         job, exc = eng.run_job(**kw)
     if exc is not None and not isinstance(exc, (ValueError, InjectedFault, KeyboardInterrupt)):
         raise Violation(PROP, "raise-not-return", f"undocumented exception {type(exc).__name__}: {exc}", site="job.exc")
+    return eng, exc
+
+
+def simulate_direct(doc, log, w, eng):
+    """Drive newtonrhapson directly (default fun / jac on (x0, umat)) through the ramp."""
+    from felupe.dof import apply, partition
+
+    um = w.umats[0]
+    field = w.field
+    exc = None
+    ek = eng.evaluate_kwargs()
+    kw = {k: ek[k] for k in ("tol", "maxiter") if k in ek}
+    nsub = len(doc["steps"][0]["ramp"][0]["values"])
+    grad_kw = {}
+    with eng:
+        try:
+            for i in range(nsub):
+                w.apply_ramp(0, i)
+                dof0, dof1 = partition(field, w.steps[0].boundaries)
+                ext0 = apply(field, w.steps[0].boundaries, dof0)
+                eng.step_of[id(None)] = 0
+                res = eng._newton(x0=field, args=(um,), dof0=dof0, dof1=dof1, ext0=ext0, verbose=bool(ek.get("verbose")), **kw)
+                field = res.x
+                eng.callback(0, i, res)
+        except BaseException as e:
+            from ..kernel import HarnessError, origin
+
+            if isinstance(e, (Violation, Discard, HarnessError)) or origin(e) == "harness":
+                raise
+            exc = e
+    log.ev("direct-end", exc=None if exc is None else type(exc).__name__)
+    log.count("direct-newton")
+    if exc is not None and not isinstance(exc, (ValueError, InjectedFault, KeyboardInterrupt)):
+        raise Violation(PROP, "raise-not-return", f"undocumented exception {type(exc).__name__}: {exc}", site="newtonrhapson.exc")
     return eng, exc
 
 
